@@ -41,7 +41,7 @@ theorem compile_correct (h : Handlers) (p : Prog) (hwf : wf p 0 false = true) :
   obtain ⟨c', hc', rfl⟩ := hcc
   refine ⟨c', hc', ?_⟩
   have hv := (hx 0 [] rfl).1
-  have hs := dexec_spec h false (.pcall p) [] [] [] (by simpa [wf] using hwf) (Or.inl rfl)
+  have hs := dexec_spec h false (.pcall p) [] [] [] (by simpa [wf] using hwf)
   simp only [envOf, restOf_nil, List.append_nil, List.length_nil] at hs
   have hv' : vexec h false (.pcall c') 0 [] = dexec h false (.pcall p) [] 0 [] := hv
   unfold runVM run
@@ -64,17 +64,16 @@ theorem compile_correct (h : Handlers) (p : Prog) (hwf : wf p 0 false = true) :
 example : wf (.seq (.tbc (.obj 1)) (.loop 2 (.seq (.tbc (.obj 2)) (.block (.seq (.tbc (.obj 3)) .brk))))) 0 false = true := by
   decide
 
-/-- closing a suspended coroutine runs every pending handler, as long as the coroutine is not suspended
-    inside a protected call: the machine (Thread.end → cleanupCloseStack) and the manual agree on the calls
-    and on the result of coroutine.close -/
-theorem coroutine_close_runs_pending (h : Handlers) (p : Prog) (hwf : wf p 0 false = true)
-    (hsafe : noYieldInPcall p = true) :
+/-- closing a suspended coroutine runs every pending handler, wherever the coroutine is suspended — also
+    inside (nested) protected calls, which do not catch the close (as of /repo 3e9e50b): the machine
+    (Thread.end → cleanupCloseStack) and the manual agree on the calls and on the result of coroutine.close -/
+theorem coroutine_close_runs_pending (h : Handlers) (p : Prog) (hwf : wf p 0 false = true) :
     ∃ c, compileChunk p = some c ∧ runVMCo h c = runCo h p := by
   obtain ⟨cp, L, hc, _, _, hx⟩ := vexec_compile h true p [⟨.root, 0⟩] ⟨rfl, rfl⟩
     (by simpa [ctxBlocks] using hwf)
   refine ⟨fnCode cp (L ++ [⟨.root, 0⟩]), by simp only [compileChunk, hc], ?_⟩
   have hv : vexec h true cp 0 [] = dexec h true p [] 0 [] := (hx 0 [] rfl).1
-  have hs := dexec_spec h true p [] [] [] (by simpa using hwf) (Or.inr hsafe)
+  have hs := dexec_spec h true p [] [] [] (by simpa using hwf)
   simp only [envOf, restOf_nil, List.append_nil, List.length_nil] at hs
   obtain ⟨f1, f2⟩ := fn_step h [] _ _ hs (exec_exitOK h true p 0 false [] hwf)
   unfold runVMCo runCo
@@ -110,17 +109,67 @@ theorem coroutine_close_runs_pending (h : Handlers) (p : Prog) (hwf : wf p 0 fal
     | goto g => simp [isAbort] at habv
     | ret => simp [isAbort] at habv
 
-example : wf (.seq (.tbc (.obj 1)) (.block (.seq (.tbc (.obj 2)) .yield))) 0 false = true ∧
-    noYieldInPcall (.seq (.tbc (.obj 1)) (.block (.seq (.tbc (.obj 2)) .yield))) = true := by decide
+example : wf (.seq (.tbc (.obj 1)) (.pcall (.seq (.tbc (.obj 2)) .yield))) 0 false = true := by decide
 
-/-- golua today: a coroutine closed while suspended INSIDE pcall loses the pending value declared inside
-    the protected call (CallContext's deferred function truncates the close stack without calling
-    anything); the manual prescribes `close 1 nil`.  This is why `coroutine_close_runs_pending` needs
-    `noYieldInPcall`. -/
-theorem coroutine_close_in_pcall_counterexample :
-    (compileChunk (.pcall (.seq (.tbc (.obj 1)) .yield))).map (runVMCo (fun _ _ => none)) = some [.closed none] ∧
-    runCo (fun _ _ => none) (.pcall (.seq (.tbc (.obj 1)) .yield)) = [.close 1 none, .closed none] := by
+/-- regression (fixed in /repo 3e9e50b): a coroutine closed while suspended inside pcall closes the value
+    declared inside the protected call, then the outer one; before the fix the inner one was discarded -/
+example :
+    (compileChunk (.seq (.tbc (.obj 2)) (.pcall (.seq (.tbc (.obj 1)) .yield)))).map (runVMCo (fun _ _ => none)) =
+      some [.close 1 none, .close 2 none, .closed none] ∧
+    runCo (fun _ _ => none) (.seq (.tbc (.obj 2)) (.pcall (.seq (.tbc (.obj 1)) .yield))) =
+      [.close 1 none, .close 2 none, .closed none] := by
   decide
+
+/-- NO TAIL CALL WITH A PENDING CLOSE (astcomp getTailCall / HasPendingCloseActions): in a context with at least
+    one pending to-be-closed variable `return f()` is compiled as an ordinary call followed by a return, never
+    as a tail call; with none pending it is a tail call.  Together with `compile_correct` (which covers
+    `retCall`) this gives the property's clause "the handler runs after the called function returns". -/
+theorem no_tail_call_with_pending (p : Prog) (ctx : Ctx) (cp : Code) (ctx1 : Ctx)
+    (hc : compile p [⟨.root, 0⟩] = some (cp, ctx1)) :
+    (0 < topHeight ctx → compile (.retCall p) ctx = some (.seq (.call (fnCode cp ctx1)) .ret, ctx)) ∧
+    (topHeight ctx = 0 → compile (.retCall p) ctx = some (.tailcall (fnCode cp ctx1), ctx)) := by
+  constructor
+  · intro h; simp only [compile, hc, h, if_true]
+  · intro h; simp only [compile, hc, h, Nat.lt_irrefl, if_false]
+
+example : compile (.mark 7) [⟨.root, 0⟩] = some (.mark 7, [⟨.root, 0⟩]) ∧
+    (0 : Nat) < topHeight [⟨.loc, 1⟩, ⟨.root, 0⟩] := by decide
+
+/-- what the manual prescribes for `local x <close> = v; return f()`: f runs first, then x is closed — and
+    why the refusal matters: had the compiler emitted a tail call here, the machine would close x BEFORE
+    running f (OpCall with isTail cleans the close stack up first) -/
+theorem tail_call_order (h : Handlers) :
+    run h (.seq (.tbc (.obj 1)) (.retCall (.mark 7))) = [.mark 7, .close 1 none, .caught (h 1 none)] ∧
+    (compileChunk (.seq (.tbc (.obj 1)) (.retCall (.mark 7)))).map (runVM h) =
+      some [.mark 7, .close 1 none, .caught (h 1 none)] ∧
+    runVM h (.seq (.push (.obj 1)) (.tailcall (.seq (.mark 7) .ret))) =
+      [.close 1 none] ++ (match h 1 none with
+        | some e => [.caught (some e)]
+        | none => [.mark 7, .caught none]) := by
+  have h1 : run h (.seq (.tbc (.obj 1)) (.retCall (.mark 7))) = [.mark 7, .close 1 none, .caught (h 1 none)] := by
+    simp only [run, exec, closeBlock, closeAll, Exit.errArg, Exit.withErr, Exit.leaveFunction, Exit.thenReturn,
+      List.append_nil, List.nil_append]
+    cases h 1 none <;> rfl
+  refine ⟨h1, ?_, ?_⟩
+  · obtain ⟨c, hc, hr⟩ := compile_correct h (.seq (.tbc (.obj 1)) (.retCall (.mark 7))) (by decide)
+    rw [hc, Option.map_some, hr, h1]
+  · simp only [runVM, vexec, cleanup, Exit.errArg, Exit.withErr, Exit.leaveFunction, Exit.thenReturn]
+    cases h 1 none <;> rfl
+
+/-- GENERIC FOR, CLOSING VALUE: the fourth value of a generic for is closed when the loop ends — here by
+    `break` in the first iteration, after the body's own to-be-closed variable; by `compile_correct` the
+    machine does the same on the compiled code.  (`Prog.forin` is the block the manual describes; that golua's
+    ProcessForInStat emits the same clpush/cltrunc skeleton as this block is part of the correspondence.) -/
+theorem forin_closing_value (h : Handlers) (n : Nat) :
+    run h (Prog.forin (.obj 9) (n + 1) (.seq (.tbc (.obj 1)) (.seq (.mark 1) .brk))) =
+      [.mark 1, .close 1 none] ++
+        (closeAll h [.obj 9] (h 1 none)).2 ++ [.caught (closeAll h [.obj 9] (h 1 none)).1] ∧
+    ∃ c, compileChunk (Prog.forin (.obj 9) (n + 1) (.seq (.tbc (.obj 1)) (.seq (.mark 1) .brk))) = some c ∧
+      runVM h c = run h (Prog.forin (.obj 9) (n + 1) (.seq (.tbc (.obj 1)) (.seq (.mark 1) .brk))) := by
+  refine ⟨?_, compile_correct h _ (by simp [Prog.forin, wf])⟩
+  simp only [run, Prog.forin, exec, closeBlock, loopIter, closeAll, Exit.errArg, Exit.withErr, Exit.leaveBlock,
+    List.append_nil, List.nil_append]
+  cases h 1 none <;> cases h 9 _ <;> rfl
 
 /-- the id of the value a closing call is about -/
 def closeId : Ev → Option Nat
